@@ -1,5 +1,6 @@
 import Bxh.Props.C13
 import Bxh.Proofs.LedgerRevert
+import Bxh.Proofs.LedgerFlush
 /-!
 # C13 — snapshots: "Reverting to a snapshot restores every journaled value to what it was at snapshot time, and nested snapshots
 revert independently" — and, with `getState_peek` / `peekState_setState`, the read-your-write clause for EVERY key and account
@@ -42,6 +43,24 @@ theorem C13_read_after_writes (ws : List SWrite) (l : L) (b : Addr) (k' : String
           simp only [decide_eq_false_iff_not]
           intro e; exact h ⟨e.1.symm, e.2.symm⟩
         rw [if_neg h, h']
+
+/-- **`FlushDirtyData` keeps every read** (up to nil / empty, which `bytes.Equal` does not tell apart): on a ledger whose account
+objects are coherent (`ObjCoh`: memoised committed values are what the layers below hold, a key is written only after its committed
+value was memoised, no duplicates) every key of every account — written by the block or not, of a modified account or not — reads
+after the flush, from the account cache and the database, what it read before it from the block's objects -/
+theorem C13_flush_keeps_every_read (H : RootPre → String) (l : L) (hC : ObjCoh l) (a : Addr) (k : String) :
+    ((getState (flush H l).1 a k).2).getD "" = ((getState l a k).2).getD "" := by
+  rw [getState_peek, getState_peek]; exact flush_keeps_reads H l hC a k
+
+/-- **a block's writes survive the flush**: start a block on a ledger without account objects (after the previous flush, after a
+reopen), make any sequence of storage writes and deletes, flush: every key of every account reads the value of the block's last
+write to it, or what it read before the block if the block did not write it -/
+theorem C13_block_writes_survive_flush (H : RootPre → String) (l : L) (hno : l.accounts = []) (ws : List SWrite) (a : Addr) (k : String) :
+    ((getState (flush H (writes ws l)).1 a k).2).getD "" =
+      (match ws.reverse.find? (fun (w : SWrite) => decide (w.addr = a ∧ w.key = k)) with
+       | some w => w.val
+       | none => (getState l a k).2).getD "" := by
+  rw [C13_flush_keeps_every_read H _ ((ObjCoh.of_no_objects l hno).writes ws), C13_read_after_writes]
 
 /-- the changer's invariant on revision ids (ids are handed out from `nextRev`) -/
 def RevsOk (s : L) : Prop := ∀ r ∈ s.revisions, r.1 < s.nextRev
